@@ -1,1 +1,7 @@
+pub mod checks;
+pub mod db;
+pub mod layouts;
+pub mod lsp;
+pub mod report;
 pub mod seed;
+pub mod ws;
